@@ -866,6 +866,9 @@ func (r *Run) buildSources() []dials.Source {
 		default:
 			panic("harness: unknown source kind " + st.spec.Kind)
 		}
+		if st.spec.Wrapped {
+			st.src = sourcewrap.NewTransformingSource(st.src)
+		}
 		out = append(out, st.src)
 	}
 	return out
